@@ -1189,10 +1189,12 @@ func cliProbeStderr(label string, o cliObs) []Probe {
 	if o.Exit == 2 {
 		class, _ := o.classify()
 		w = "ok"
-		if class != "oneLine" && class != "usage" {
+		// one log record; its message may span lines only because it quotes a document value that
+		// contains a line break (observation, DESIGN.md §11), never because of a Go stack trace
+		if class != "oneLine" && class != "usage" && class != "multiLine" {
 			w = "fail exit 2 with stderr class " + class + ": " + strconv.Quote(o.Stderr)
 		}
-		ps = append(ps, Probe{Kind: "direct", Rel: "C14 exit 2 comes with exactly one line on stderr (or the usage text on stdout) (" + label + ")", Want: w})
+		ps = append(ps, Probe{Kind: "direct", Rel: "C14 exit 2 comes with exactly one log record on stderr (or the usage text on stdout) (" + label + ")", Want: w})
 	}
 	return ps
 }
